@@ -87,6 +87,29 @@ def run(tier):
         for c in r.printed:
             layout = c["layout"]
             n = len(c["theta"])
+            if c.get("wide"):
+                # one component over 48 variables (scales from 2^-1 to 2^46): value and cost of the component alone, of the JointPrior
+                # around it, and of the JointPrior built from 48 one-variable components (which merges them)
+                theta = np.array([fr(t) for t in c["theta"]])
+                ty = layout[0]["type"]
+                ident = {"layout": [{"type": ty, "variable_indices": "0..%d" % (n - 1)}], "theta": "at the mean / 0 / 1", "n_variables": n}
+                ck.case(("wide", ty))
+                PR.rng = FakeRng()
+                try:
+                    whole = build(layout)[0]
+                    singles = build([{"type": ty, "vars": [v]} for v in layout[0]["vars"]])
+                    objs = [(type(whole).__name__, whole), ("JointPrior", JointPrior(components=[whole], n_variables=n)),
+                            ("JointPrior(of 1-variable components)", JointPrior(components=singles, n_variables=n))]
+                    want = SL.value(c["value"])
+                    for cname, obj in objs:
+                        with np.errstate(all="ignore"):
+                            val, cost = float(obj(theta)), float(obj.cost(theta))
+                        if not SL.close(val, want, scale=SL.magnitude(c["value"])) or not SL.close(cost, -want, scale=SL.magnitude(c["value"])):
+                            ck.violation("value / cost: sum of the component log-densities (normalised) and its exact negative",
+                                         {**ident, "class": cname, "want": want, "value": val, "cost": cost}, site=f"{cname.split('(')[0]}.__call__:wide")
+                except Exception as ex:
+                    ck.violation("prior over many variables raised", {**ident, "error": repr(ex)[:300]}, site="JointPrior.__init__")
+                continue
             theta = np.array([fr(t) for t in c["theta"]])
             ident = {"layout": [{"type": x["type"], "variable_indices": [v - 1 for v in x["vars"]]} for x in layout], "theta": theta.tolist()}
             ck.case((json.dumps(layout), json.dumps(c["theta"])))
@@ -94,10 +117,25 @@ def run(tier):
             PR.rng = fake
             try:
                 comps = build(layout)
+                with np.errstate(all="ignore"):
+                    alone_before = [(float(cp(theta)), list(cp.variables)) for cp in comps]
                 joint = JointPrior(components=comps, n_variables=n)
             except Exception as ex:
                 ck.violation("JointPrior construction of a valid layout raised", {**ident, "error": repr(ex)}, site="JointPrior.__init__")
                 continue
+            # the components are still themselves after a joint prior was built from them, and can be used again (in another order)
+            try:
+                with np.errstate(all="ignore"):
+                    alone_after = [(float(cp(theta)), list(cp.variables)) for cp in comps]
+                    joint_again = JointPrior(components=list(reversed(comps)), n_variables=n)
+                    same_joint = float(joint_again(theta)) == float(joint(theta)) or SL.close(float(joint_again(theta)), float(joint(theta)), scale=1e3)
+                if alone_after != alone_before or not (same_joint or not c["inside"]):
+                    ck.violation("components keep their own indices and values after a JointPrior was built from them; the same components in another "
+                                 "order give the same joint prior", {**ident, "components_before": alone_before, "components_after": alone_after},
+                                 site="JointPrior.__init__:components")
+            except Exception as ex:
+                ck.violation("a second JointPrior from the same components (reversed order) raised", {**ident, "error": repr(ex)[:300]},
+                             site="JointPrior.__init__:components")
             objs = [("JointPrior", joint)]
             if len(layout) == 1 and sorted(layout[0]["vars"]) == list(range(1, n + 1)):
                 objs.append((type(comps[0]).__name__, comps[0]))
